@@ -18,7 +18,7 @@ fn multiset(v: &[String]) -> Vec<String> {
 }
 
 fn answers(p: &Prog) -> Result<Vec<String>, String> {
-    match run_prog(p) {
+    match run_prog_b(p, 3_000_000) {
         RunOut::Answers(a, _) => Ok(a.iter().map(|x| x.show("")).collect()),
         RunOut::Budget(_) => Err("BUDGET".into()),
         RunOut::Panic(s) => Err(format!("PANIC {}", s)),
@@ -26,7 +26,8 @@ fn answers(p: &Prog) -> Result<Vec<String>, String> {
 }
 
 pub fn eval(p: &Prog) -> (String, Option<String>, bool, u64) {
-    let out = run_prog(p);
+    // terminating programs: a generous budget, so that only genuine divergence is cut short
+    let out = run_prog_b(p, 3_000_000);
     let fuel = model_fuel(&out);
     let line = show_run(&out, false);
     let got: Vec<String> = match &out {
